@@ -45,6 +45,10 @@ class E:
 
 def expr_of_operand(fn, o, depth=0, seen=None):
     if o.get("k") == "const":
+        if o.get("promoted") and "promoted_idx" in o and depth < MAXD:
+            pf = fn.promoted(o["promoted_idx"])
+            if pf is not None:
+                return expr_of_local(pf, 0, depth + 1, None)
         if "v" in o:
             return E("const", o["v"], o.get("name"))
         if "fn" in o:
